@@ -1115,6 +1115,129 @@ def _replace_sub(f, h, new):
     return (f[0],) + tuple(_replace_sub(g, h, new) for g in f[1:])
 
 
+# ---------- fairness containers that are temporaries of the call expression / one container edited between calls ----------
+FAIR_FORMULAS = {
+    'CTL': [('E', ('G', ('true',))), ('E', ('G', ('ap', 'p'))), ('E', ('F', ('ap', 'q'))), ('A', ('F', ('ap', 'q'))), ('E', ('X', ('true',))),
+            ('E', ('U', ('ap', 'p'), ('ap', 'q'))), ('A', ('G', ('ap', 'p'))), ('not', ('E', ('G', ('true',))))],
+    'LTL': [('A', ('F', ('false',))), ('A', ('F', ('ap', 'q'))), ('A', ('G', ('ap', 'p'))), ('A', ('U', ('ap', 'p'), ('ap', 'q'))), ('A', ('X', ('false',)))],
+    'CTLS': [('E', ('G', ('true',))), ('E', ('G', ('F', ('ap', 'p')))), ('A', ('F', ('G', ('ap', 'q')))), ('E', ('F', ('ap', 'q'))), ('A', ('F', ('false',))),
+             ('E', ('X', ('E', ('G', ('true',)))))],
+}
+
+
+def gen_fair_episode(rng):
+    m = rng.randint(2, 5)
+    kd = rand_kripke(rng, m, maxdeg=2)
+    for s in kd['S']:
+        if rng.random() < 0.6 and (s, s) not in kd['R']:
+            kd['R'].append((s, s))
+    logic = rng.choice(LOGICS)
+    Fds = []
+    for _ in range(rng.randint(6, 12)):
+        r = rng.random()
+        if r < 0.55:
+            Fds.append([[rng.randrange(m)]])
+        elif r < 0.65:
+            Fds.append([])
+        elif r < 0.72:
+            Fds.append([[]])
+        else:
+            Fds.append([sorted(x for x in range(m) if rng.random() < 0.4) for _ in range(rng.randint(1, 2))])
+    return {'stream': 'fairness containers', 'logic': logic, 'kripke': kd_json(kd), 'formula': rng.choice(FAIR_FORMULAS[logic]),
+            'mode': rng.choice(['temporary list of sets', 'temporary tuple of frozensets', 'one list edited in place', 'one list, its sets edited in place']),
+            'Fs': Fds}
+
+
+def exec_fair_episode(ep):
+    """the calls of one episode, back to back; returns (raw results, model commands)"""
+    kd = kd_from_json(ep['kripke'])
+    K = kd_py(kd)
+    L = lang_module(ep['logic'])
+    f = detuple(ep['formula'])
+    arg = to_py(f, L)
+    mc = L.modelcheck
+    ks = kripke_sx(K)
+    n = len(ep['Fs'])
+    raw = [None] * n
+    mode = ep['mode']
+    own = []
+    for i in range(n):
+        Fd = ep['Fs'][i]
+        try:
+            if mode == 'temporary list of sets':
+                raw[i] = mc(K, arg, F=[set(P) for P in Fd])
+            elif mode == 'temporary tuple of frozensets':
+                raw[i] = mc(K, arg, F=tuple(frozenset(P) for P in Fd))
+            elif mode == 'one list edited in place':
+                own[:] = [set(P) for P in Fd]
+                raw[i] = mc(K, arg, F=own)
+            else:
+                while len(own) > len(Fd):
+                    own.pop()
+                while len(own) < len(Fd):
+                    own.append(set())
+                for P, Q_ in zip(own, Fd):
+                    P.clear()
+                    P.update(Q_)
+                raw[i] = mc(K, arg, F=own)
+        except Exception as e:  # noqa
+            raw[i] = e
+    res = []
+    for r in raw:
+        if isinstance(r, Exception):
+            res.append(['err', exc_name(r)])
+        elif type(r) is not set:
+            res.append(['err', 'other:not-a-set:' + type(r).__name__])
+        else:
+            res.append(['ok', sorted(r)])
+    unchanged = kripke_sx(K) == ks
+    cmds = [sx_str([MODEL_F[ep['logic']], ks, fsx(f), [sorted(P) for P in Fd]]) for Fd in ep['Fs']]
+    return res, cmds, unchanged
+
+
+def fair_containers(R):
+    """every call gets its fairness constraints in a container that did not exist (or had other contents) at the previous call"""
+    rng = random.Random(R.seed + 7171)
+    eps = [json.loads(json.dumps(gen_fair_episode(rng))) for _ in range(1500 if R.thorough else 150)]
+    done = [(ep,) + exec_fair_episode(ep) for ep in eps]
+    expectations(sorted({c for _, _, cmds, _ in done for c in cmds}))
+    nbad = 0
+    for ep, res, cmds, unchanged in done:
+        exps = expectations(cmds)
+        R.evaluations += len(res)
+        R.count('fairness_container_episodes:' + ep['mode'])
+        bad = [i for i, (r, e) in enumerate(zip(res, exps)) if list(r) != list(e)]
+        if bad or not unchanged:
+            nbad += 1
+            if nbad <= 4:
+                i = bad[0] if bad else -1
+                R.violation('%s.modelcheck(K, %s, F=<%s>): call %d of a sequence of calls that differ only in F (%s) returns %s, the proved model on '
+                            'the same arguments %s%s' % (ep['logic'], fstr(detuple(ep['formula'])), ep['mode'], i, ep['Fs'][i], res[i], exps[i],
+                                                         '' if unchanged else '; K was modified'),
+                            dict(ep, impl=res, model=exps, failing_call=i))
+        elif len({json.dumps(r) for r in res}) > 1:
+            R.nontriv(('fair-containers', json.dumps(ep, sort_keys=True)))
+    return nbad
+
+
+def replay_fair(R, d):
+    # whether a temporary container gets the address of an earlier one depends on the allocator: the episode is repeated until the
+    # difference shows (at most 200 times; every repetition is the same sequence of calls on a new structure)
+    for rep in range(200 if d['mode'].startswith('temporary') else 1):
+        res, cmds, unchanged = exec_fair_episode(d)
+        exps = expectations(cmds)
+        if not unchanged or any(list(r) != list(e) for r, e in zip(res, exps)):
+            break
+    print('repetition %d of the episode:' % (rep + 1))
+    bad = not unchanged
+    for i, (Fd, r, e) in enumerate(zip(d['Fs'], res, exps)):
+        print('call %2d  %s.modelcheck(K, %s, F=%s as %s)  impl=%s model=%s %s' % (i, d['logic'], fstr(detuple(d['formula'])), Fd, d['mode'], r, e,
+                                                                                 '<-- VIOLATION' if list(r) != list(e) else ''))
+        bad = bad or list(r) != list(e)
+    if bad:
+        R.violation('replayed: the answer depends on the fairness container of an earlier call', d)
+
+
 def order_independence(R):
     """"interleaving a call with arbitrary other calls returns an equal set", checked WITHOUT the model on formulas the model is
     not exact for: pairs (f, f') where f' is f with one subformula h replaced by an ATOM whose name is the printed form of h
@@ -1213,7 +1336,7 @@ def run(R):
               'EX/AX-type formulas + 1 A-op + 1 CTL + 1 LTL + 1 CTL* formula, every answer compared with the model.  ORDER INDEPENDENCE '
               '(model-free, quick 3 / thorough 8 episodes of 12 look-alike pairs (f, f with a subformula replaced by an atom named like its '
               'printed form), each member called on 2 of 3 structures, in two fresh interpreters in opposite orders; every third pair replaces a '
-              'whole CTL state subformula so that both members go through CTL.modelcheck)')
+              'whole CTL state subformula so that both members go through CTL.modelcheck) FAIRNESS CONTAINERS: episodes of 6-12 back-to-back calls that differ only in F, the container being a temporary of the call expression (list of sets / tuple of frozensets, garbage before the next one is built) or ONE list that the caller edits in place between the calls (slice assignment / its sets cleared and refilled); every answer against the model on the same arguments.')
     rng = R.rng
     if R.thorough:
         n_hist, maxlen, p_text, p_textp, p_relabel, p_edit, p_rebuild, n_churn = 2500, 40, 0.08, 0.2, 0.05, 0.04, 0.01, 300
@@ -1259,6 +1382,7 @@ def run(R):
     expectations(sorted(all_cmds))
     R.cov['model_commands_distinct'] = len(all_cmds)
     order_independence(R)
+    fair_containers(R)
     shrunk = {'general': 0, 'evolving': 0, 'churn': 0}
     # verdicts: the two dedicated streams (short, self-contained episodes: the most readable counterexamples) first, then the
     # general histories; `earlier` (candidates for a prelude) is always the prefix in EXECUTION order
@@ -1389,6 +1513,8 @@ def report(R, desc, hist, obs, exps, j, do_shrink, earlier):
 
 def replay(R, data):
     d = data['data']
+    if d.get('stream') == 'fairness containers':
+        return replay_fair(R, d)
     desc, hist = d['pool'], d['history']
     if d.get('stream') == 'order independence':
         o1, _ = exec_history_fresh(desc, hist)
